@@ -483,6 +483,24 @@ impl Stage {
                 verif_simrt::sched::advance_quiet(op.n0());
                 return res;
             }
+            "resize_h" => {
+                // the window gets another height between two calls (the library is not told; it
+                // asks the terminal for its size at every draw)
+                let nh = op.n0().clamp(1, 200) as u16;
+                let old_h = self.h;
+                if self.term.resize_height(nh) {
+                    self.h = nh as usize;
+                    r.probe(match self.h.cmp(&old_h) {
+                        std::cmp::Ordering::Greater => "height_grown",
+                        std::cmp::Ordering::Less => "height_shrunk",
+                        _ => "height_same",
+                    });
+                } else {
+                    res.skipped = true;
+                    self.skipped_ops += 1;
+                }
+                return res;
+            }
             "sleep" => {
                 // blocks the calling simulated thread; other threads (steady tickers) run meanwhile
                 verif_simrt::sched::sleep(op.n0());
